@@ -10,11 +10,13 @@ import (
 	"google.golang.org/protobuf/proto"
 	"google.golang.org/protobuf/reflect/protoreflect"
 	"google.golang.org/protobuf/types/descriptorpb"
+	"google.golang.org/protobuf/types/dynamicpb"
 )
 
 func init() {
 	vfHarnesses["VerifH_registry"] = VerifH_registry
 	vfHarnesses["VerifH_registry_snapshot"] = VerifH_registry_snapshot
+	vfHarnesses["VerifH_registry_maporder"] = VerifH_registry_maporder
 	vfHarnesses["VerifH_config_vs_annotation"] = VerifH_config_vs_annotation
 }
 
@@ -235,15 +237,18 @@ type vfBackend struct {
 	live bool
 }
 
+type vfRouteProbe struct{ route, verb string }
+
 var vfAllMethods = []struct {
-	name  string
-	route string
-	verb  string
+	name   string
+	route  string
+	verb   string
+	others []vfRouteProbe // additional bindings
 }{
-	{"/vf.A/M1", "/v1/xx/yy", "GET"},
-	{"/vf.A/M2", "/v1/a2/zz", "GET"},
-	{"/vf.B/M1", "/v1/xx", "PUT"},
-	{"/vf.B/M2", "/v1/zz", "GET"},
+	{"/vf.A/M1", "/v1/xx/yy", "GET", nil},
+	{"/vf.A/M2", "/v1/a2/zz", "GET", []vfRouteProbe{{"/v1/a2b", "POST"}}},
+	{"/vf.B/M1", "/v1/xx", "PUT", nil},
+	{"/vf.B/M2", "/v1/zz", "GET", nil},
 }
 
 func vfExposes(svcs []vfSvcSpec, method string) bool {
@@ -285,6 +290,7 @@ func vfFingerprint(s *state) string {
 // dropped backends must be gone, earlier snapshots must be untouched and a failed operation must
 // leave the published snapshot pointer-identical.
 func VerifH_registry() {
+	vfMapOrder(vfChoice(2)) // the code ranges over maps (trie segments, methods): two iteration orders
 	fa, fb := vfFakeSvc(vfSvcA), vfFakeSvc(vfSvcB)
 	mux, err := NewMux(FilesOption(vfRegistry(fa, fb)))
 	if err != nil {
@@ -301,6 +307,14 @@ func VerifH_registry() {
 	for step := 0; step < steps; step++ {
 		before := mux.loadState()
 		fpBefore := vfFingerprint(before)
+		var hdBefore [][]*handler
+		for _, me := range vfAllMethods {
+			var cp []*handler
+			if before != nil {
+				cp = append(cp, before.handlers[me.name]...)
+			}
+			hdBefore = append(hdBefore, cp)
+		}
 		failed := false
 		switch vfChoice(9) {
 		case 0:
@@ -375,6 +389,16 @@ func VerifH_registry() {
 		}
 		// C12: the earlier snapshot is untouched by the writer
 		vfCheck(vfFingerprint(before) == fpBefore, "a published snapshot was modified by a later registration / removal")
+		for mi, me := range vfAllMethods {
+			if before == nil {
+				break
+			}
+			now := before.handlers[me.name]
+			vfCheck(len(now) == len(hdBefore[mi]), "the handler list of a published snapshot changed length")
+			for k := range hdBefore[mi] {
+				vfCheck(k < len(now) && now[k] == hdBefore[mi][k], "the handler list of a published snapshot was modified in place by a later writer")
+			}
+		}
 		cur := mux.loadState()
 		if failed {
 			vfCheck(vfFingerprint(cur) == fpBefore, "an operation that should change nothing changed the routing state")
@@ -409,8 +433,23 @@ func VerifH_registry() {
 			hd, perr := cur.pickMethodHandler(me.name)
 			if want > 0 {
 				vfCheck(perr == nil && hd != nil, "a method with a live backend is reported unimplemented")
-				m, _, merr := cur.match(me.route, me.verb)
+				m, ps, merr := cur.match(me.route, me.verb)
 				vfCheck(merr == nil && m.name == me.name, "the HTTP route of a method with a live backend no longer dispatches to it")
+				for _, o := range me.others {
+					m2, _, e2 := cur.match(o.route, o.verb)
+					vfCheck(e2 == nil && m2.name == me.name, "an additional HTTP binding of a method with a live backend no longer dispatches to it")
+				}
+				// whichever backend is picked builds the request message from ITS descriptors; the
+				// path parameters of the route must be applicable to it (what RecvMsg does)
+				for _, h := range hds {
+					var args proto.Message
+					if fmd, ok := h.desc.Input().(*fakeMD); ok {
+						args = newFakeMsg(fmd) // strict about descriptor ownership, like dynamicpb
+					} else {
+						args = dynamicpb.NewMessage(h.desc.Input()) // native replay: real descriptors of a connection
+					}
+					vfCheck(ps.set(args) == nil, "path parameters could not be applied to the request message of a live backend")
+				}
 				vfCover("live-route")
 			} else {
 				vfCheck(perr != nil, "a method without live backends still has a handler")
@@ -487,4 +526,42 @@ func VerifH_config_vs_annotation() {
 		vfCover("dispatched-by-rule")
 	}
 	vfCover("dispatched")
+}
+
+// VerifH_registry_maporder (C11): register / drop / register-again histories under an adversarial
+// map iteration order (one `range` over a map, chosen by fork, runs in reverse): which of a
+// method's several rules delRule meets first must not decide whether its routes survive.
+func VerifH_registry_maporder() {
+	fa, fb := vfFakeSvc(vfSvcA), vfFakeSvc(vfSvcB)
+	mux, err := NewMux(FilesOption(vfRegistry(fa, fb)))
+	if err != nil {
+		vfFail("NewMux failed")
+	}
+	c1 := new(grpc.ClientConn)
+	var svcs []vfSvcSpec
+	switch vfChoice(2) {
+	case 0:
+		svcs = []vfSvcSpec{vfSvcA}
+	default:
+		svcs = []vfSvcSpec{vfSvcA, vfSvcB}
+	}
+	vfCheck(vfRegisterConn(mux, c1, &vfReflStream{svcs: svcs}) == nil, "RegisterConn failed")
+	vfMapOrder(2)
+	vfCheck(mux.DropConn(nil, c1), "DropConn failed")
+	vfCheck(vfRegisterConn(mux, c1, &vfReflStream{svcs: svcs}) == nil, "RegisterConn failed")
+	vfMapOrder(0)
+	cur := mux.loadState()
+	for _, me := range vfAllMethods {
+		if !vfExposes(svcs, me.name) {
+			continue
+		}
+		vfCheck(len(cur.handlers[me.name]) == 1, "re-registered connection is not the method's only backend")
+		m, _, merr := cur.match(me.route, me.verb)
+		vfCheck(merr == nil && m.name == me.name, "the HTTP route of a re-registered method no longer dispatches to it")
+		for _, o := range me.others {
+			m2, _, e2 := cur.match(o.route, o.verb)
+			vfCheck(e2 == nil && m2.name == me.name, "an additional HTTP binding of a re-registered method no longer dispatches to it")
+		}
+	}
+	vfCover("reregistered")
 }
